@@ -277,7 +277,9 @@ async def _run_acts(ctx, ev, sp, prog, att, v, uid, bid):
                 kwargs["timeout"] = act["timeout"]
             r.add("wait_call", step=step, bid=bid, uid=uid, wid=rwid, v=v, req=req, type=act["type"])
             try:
-                got = await ctx.wait_for_event(T, waiter_event=ask, waiter_id=wid, requirements=req or None, **kwargs)
+                # `engine_wid`: the id handed to the engine (e.g. one constant id reused by successive invocations) while the
+                # harness keeps its records per invocation
+                got = await ctx.wait_for_event(T, waiter_event=ask, waiter_id=act.get("engine_wid", wid), requirements=req or None, **kwargs)
             except asyncio.TimeoutError:
                 r.add("wait_timeout", step=step, bid=bid, uid=uid, wid=rwid, v=v)
                 if act.get("on_timeout") == "raise":
